@@ -19,9 +19,9 @@ round trips, validity setters) on a fresh start field.  On EVERY transition
   * setters: stored values byte-identical, Boolean array of the mesh shape, the
     expected pattern ('norm': length > 1e-8)
 
-The first event is a ctx.choose decision (so that executions can be sharded);
-the remaining depth is searched breadth first with deduplication of identical
-states.
+Unit single checks every first-level transition; unit programs shards the search
+over the distinct first-level states (ctx.choose) and searches the remaining
+depth breadth first with deduplication of canonically equal states.
 """
 import functools
 import os
@@ -35,9 +35,12 @@ from mc import common as C
 from mc import engine
 
 PROPERTY = "C08"
-RULE = ("unit programs: start state x first event are choice points; from there breadth-first search over all event "
+RULE = ("unit single: full product start state x event (first level of the search). unit programs: start state x "
+        "distinct first-level successor state are choice points; from there breadth-first search over all event "
         "histories up to depth 2 (quick) / 3 (thorough) on the real objects, every transition checked before "
-        "deduplication; states are deduplicated on (mesh, nvdim, labels, mapping, array bytes, validity bytes). "
+        "deduplication; states are deduplicated on (mesh, nvdim, labels, mapping, dtypes, attribute types and memory "
+        "layout, validity bytes) - not on the data values, which no validity path branches on; the successor of "
+        "valid='norm' (the only value dependent event) is checked but not expanded. "
         "unit setters: full product start state x setter input kind x provenance of the field. "
         "Events that the library refuses (exceptions) are counted in the notes and not expanded; states whose mask "
         "is not a Boolean array are reported and not expanded. An execution is non-trivial when at least one transition was checked.")
@@ -369,6 +372,7 @@ def site_of(name):
     return "operator-with-constant"
 
 
+DEPTH = {"quick": 2, "thorough": 3}
 EVENTS = build_events()
 EVBY = {e.name: e for e in EVENTS}
 
@@ -395,12 +399,20 @@ def norm_expectation(arr):
 
 
 def canon(f):
+    """canonical state: everything the validity behaviour can depend on - mesh, component count, labels, mapping,
+    dtypes, the mask - plus the representation details that producers leave behind (attribute types, memory layout).
+    The DATA are deliberately not part of it: no validity path of the library branches on values (the only
+    value-dependent event, valid='norm', is checked on every transition and its successor is not expanded), and the
+    data are the only thing that depends on VERIF_SEED."""
     if f is None:
         return ("dead",)
     v = f.valid
-    return (C.mesh_snap(f.mesh), int(f.nvdim), None if f.vdims is None else tuple(f.vdims),
-            tuple(sorted((k, str(x)) for k, x in f.vdim_mapping.items())), f.array.dtype.str,
-            engine.hhex(np.ascontiguousarray(f.array).tobytes()), describe(v),
+    r = f.mesh.region
+    return (C.mesh_snap(f.mesh), np.asarray(r.pmin).dtype.str, type(f.nvdim).__name__, int(f.nvdim),
+            None if f.vdims is None else tuple((str(x), type(x).__name__) for x in f.vdims),
+            tuple(sorted((str(k), str(x)) for k, x in f.vdim_mapping.items())), type(f.unit).__name__,
+            f.array.dtype.str, bool(f.array.flags.c_contiguous), describe(v),
+            (bool(v.flags.c_contiguous), bool(v.flags.owndata), bool(v.flags.writeable)) if isinstance(v, np.ndarray) else None,
             engine.hhex(np.ascontiguousarray(v).tobytes()) if isinstance(v, np.ndarray) else repr(v))
 
 
@@ -597,6 +609,9 @@ class Search:
             ctx.fail(f"{evname}/wrong-cells", f"{inst}: got {f.valid.astype(int).ravel().tolist()} expected "
                      f"{exp.astype(int).ravel().tolist()}", instance=inst)
             bad = True
+        if nm == "norm":
+            ctx.note("set-norm-successors-not-expanded")
+            return None  # the mask now depends on the (seed dependent) data: terminal state
         return _Keyed(canon(f))
 
 
@@ -612,18 +627,45 @@ def _canon(o):
     return o.key if isinstance(o, _Keyed) else canon(o)
 
 
-def unit_programs(ctx):
+def unit_single(ctx):
+    """every single event on every start state (the first level of the search), full oracle"""
     starts = STARTS_Q if ctx.tier == "quick" else STARTS_T
-    depth = 2 if ctx.tier == "quick" else 3
     start = ctx.choose("start", [s[0] for s in starts])
     s = Search(ctx, start)
     f0 = s.build(())
-    first = ctx.choose("event1", s.enabled(f0, ()))
     ctx.state("bfs", canon(f0))
-    ctx.step(1, first)
-    nxt = s.transition((), first)
-    if nxt is None:
-        return
+    ev = ctx.choose("event", s.enabled(f0, ()))
+    ctx.step(1, ev)
+    nxt = s.transition((), ev)
+    if nxt is not None:
+        ctx.state("bfs", _canon(nxt))
+
+
+def _level1_representatives(s):
+    """first-level successors deduplicated on the canonical state (deterministic, no oracle: unit single checks
+    these transitions): one representative first event per distinct successor state"""
+    f0 = s.build(())
+    seen, reps = {canon(f0)}, []
+    for ev in s.enabled(f0, ()):
+        if ev == "set-norm":
+            continue  # value dependent successor: never expanded
+        g = s.apply_plain(s.build(()), ev)
+        if g is None or not mask_ok(g.valid, g.mesh.n):
+            continue
+        k = canon(g)
+        if k not in seen:
+            seen.add(k)
+            reps.append(ev)
+    return reps
+
+
+def unit_programs(ctx):
+    """breadth-first search below every distinct first-level state"""
+    starts = STARTS_Q if ctx.tier == "quick" else STARTS_T
+    depth = DEPTH[ctx.tier]
+    start = ctx.choose("start", [s[0] for s in starts])
+    s = Search(ctx, start)
+    first = ctx.choose("event1", _level1_representatives(s))
     nstates, ntrans, capped = engine.bfs(ctx, [(first,)], s.enabled, s.build, _canon,
                                          lambda hist, ev: s.transition(hist, ev), depth)
     ctx.note("bfs-states", nstates)
@@ -686,6 +728,7 @@ def unit_setters(ctx):
 
 def units(tier):
     return [
+        {"name": "single", "fn": unit_single, "bound": None},
         {"name": "programs", "fn": unit_programs, "bound": None},
         {"name": "setters", "fn": unit_setters, "bound": None},
     ]
